@@ -398,6 +398,16 @@ def _build_flow(case, out):
     _nessai("FlowModel.train", case, fm.train, data, plot=False)
     if state == "trained":
         return fm, info
+    # what happened between the training and the reset: nothing, or the flow
+    # was used in one direction only (density evaluation / sampling)
+    used = case.get("used_before_reset")
+    if used == "forward":
+        _nessai("FlowModel.forward_and_log_prob", case,
+                fm.forward_and_log_prob, _first_batch(case, fm, x0))
+    elif used == "inverse":
+        _seed(case["seed"] + 5)
+        _nessai("FlowModel.sample_and_log_prob", case,
+                fm.sample_and_log_prob, N=16)
     w, p = {
         "reset:none": (False, False),
         "reset:w": (True, False),
@@ -1522,6 +1532,8 @@ def flow_cases(draw, state=None):
         "dtype": draw(st.sampled_from(["float32", "float32", "float64"])),
         "state": state,
         "pre_eval": draw(st.sampled_from([False, False, True])),
+        "used_before_reset": draw(st.sampled_from(
+            [None, "forward", "inverse"])),
         "epochs": draw(st.integers(3, 5)),
         "batch_size": draw(st.sampled_from([60, 100, 1000])),
         "val_size": draw(st.sampled_from([0.1, 0.1, 0.0, 0.25])),
@@ -1631,6 +1643,9 @@ def classify(case):
             cl.append("pre:" + cfg["pre_transform"])
         if case.get("pre_eval"):
             cl.append("pre_eval")
+        if case.get("used_before_reset") and case.get(
+                "state", "").startswith(("reset", "retrained")):
+            cl.append("used-one-way-before-reset:" + case["used_before_reset"])
     if cfg["ftype"] in ("realnvp", "nsf"):
         default_lt = "lu" if cfg["ftype"] == "realnvp" else "permutation"
         cl.append("lt:" + str(cfg.get("linear_transform", default_lt)))
